@@ -146,4 +146,16 @@ example : stvRun { m := 1 } (withCands orderDemo [2, 0, 1]) {} =
     (stvRun { m := 1 } orderDemo {}).map (reResult [2, 0, 1]) :=
   C08_stv_cand_order _ (by simp) orderDemo [2, 0, 1] (by decide) (by decide) {} true
 
+/-- The hypothesis `cfg.transfer ≠ .random` of `C08_stv_cand_order` cannot be dropped: two winners tied at the head
+of a simultaneous round, one whose pile has a fractional weight (TypeError) and one with a surplus and no
+transferable ballot (ValueError: sample larger than population) - the one listed first decides the exception. -/
+def randomOrderWitness : Profile :=
+  { ballots := [⟨[[0]], 7/2, []⟩, ⟨[[0], [2]], 1/2, []⟩, ⟨[[1]], 4, []⟩, ⟨[[2]], 1/2, []⟩], cands := [0, 1, 2] }
+
+theorem C08_cand_order_random_transfer_differs :
+    (stvRun { m := 2, transfer := .random } randomOrderWitness {}).map (fun r => r.states.length) = .raised .typeError ∧
+    (stvRun { m := 2, transfer := .random } (withCands randomOrderWitness [1, 0, 2]) {}).map (fun r => r.states.length) =
+      .raised .valueError := by
+  constructor <;> decide +kernel
+
 end VK
